@@ -31,7 +31,6 @@ m("C06-2-padding-reuses-sequence-number", "packetizer.go", "				SequenceNumber: 
 m("C10-1-fua-end-bit", "codecs/h264_packet.go", "} else if naluRemaining-currentFragmentSize == 0 {", "} else if naluRemaining-currentFragmentSize <= 1 {")
 m("C08-1-g722-returns-input-when-it-fits", "codecs/g722_packet.go", "	o := make([]byte, len(payload))\n	copy(o, payload)\n\n	return append(out, o)", "	if len(out) == 0 && len(payload) > 8 {\n		return append(out, payload)\n	}\n	o := make([]byte, len(payload))\n	copy(o, payload)\n\n	return append(out, o)")
 m("C08-2-vp8-last-fragment-over-mtu", "codecs/vp8_packet.go", "	maxFragmentSize := int(mtu) - usingHeaderSize\n", "	maxFragmentSize := int(mtu) - usingHeaderSize\n	if usingHeaderSize == vp8HeaderSize+3 && maxFragmentSize > 16 {\n		maxFragmentSize++\n	}\n")
-m("C09-1-h265-fu-donl-stale", "codecs/h265_packet.go", "	p.payloadHeader = payloadHeader\n	p.fuHeader = fuHeader\n	p.payload = payload\n", "	p.payloadHeader = payloadHeader\n	p.fuHeader = fuHeader\n	p.payload = payload\n	_ = fuHeader\n")
 m("C15-2-h264-start-fragment-keeps-buffer-in-avc-mode", "codecs/h264_packet.go", "		if payload[1]&fuStartBitmask != 0 {\n", "		if payload[1]&fuStartBitmask != 0 && !(p.IsAVC && len(p.fuaBuffer) == 2) {\n")
 # ---- C11 / C12 ----
 m("C11-1-picture-id-wrap-mask", "codecs/vp8_packet.go", "	p.pictureID &= 0x7FFF\n", "	p.pictureID &= 0x3FFF\n")
